@@ -72,40 +72,50 @@ def showHb : Res (List (Nat × Nat × Nat)) → String
   | .panic m => "panic " ++ m
   | .badOracle w => "bad-oracle " ++ w
 
-def machine : Machine Builder Bool where
+def parseErr (s : String) : Option Err :=
+  [Err.MaxTransmissionSizeTooSmall, .HistoryLengthTooSmall, .MeshParametersInvalid, .MeshOutboundInvalid,
+   .UnsubscribeBackoffIsZero, .InvalidProtocol].find? (·.name = s)
+
+/-- spec state: the class of the config `build` accepted in this case (`none`: nothing accepted) -/
+abbrev SpecSt := Option Class
+
+def machine : Machine Builder SpecSt where
   init _ := Builder.init
-  specInit _ := false
+  specInit _ := none
   op b args :=
     match args with
-    | ["build", s] =>
+    | ["build", s, orc] =>
       match parseSetters s with
       | some l =>
         let b' := Builder.init.applyAll l
-        match build b' with
+        match build b' (parseErr orc) with
         | .ok c => (b', "ok " ++ showGetters (c.getters alphabet))
-        | .error e => (b', "err " ++ e.name)
+        | .err e => (b', "err " ++ e.name)
+        | .badOracle => (b', "bad-oracle")
       | none => (b, "bad-op")
     | "hb" :: retain :: opp :: ogp :: blocks =>
       match retain.toNat?, parseBool opp, ogp.toNat?, blocks.mapM parseBlock with
       | some retain, some opp, some ogp, some blocks => (b, showHb (heartbeat b ⟨retain, opp, ogp⟩ blocks))
       | _, _, _, _ => (b, "bad-op")
     | _ => (b, "bad-op")
-  spec accepted args outs :=
+  spec st args outs :=
     match args with
-    | ["build", _] =>
+    | ["build", s, _] =>
       match outs with
-      | ["err", _] => (false, "ok")
+      | ["err", _] => (none, "ok")
       | "ok" :: g =>
-        match parseGetters g with
-        | some g => (true, if specBuild g then "ok" else "FAIL:build_accepts_invalid")
-        | none => (false, "FAIL:unparsable")
-      | _ => (false, "FAIL:unparsable")
+        match parseGetters g, parseSetters s with
+        | some g, some l =>
+          let c := classify (Builder.init.applyAll l) alphabet g
+          (some c, c.verdict)
+        | _, _ => (none, "FAIL:unparsable")
+      | _ => (none, "FAIL:unparsable")
     | "hb" :: _ =>
       match outs with
-      | "ok" :: _ => (accepted, "ok")
-      | "panic" :: m => (accepted, if specHb accepted (Res.panic (α := Unit) (unwords m)) then "ok" else "FAIL:heartbeat_panic")
-      | _ => (accepted, "FAIL:unparsable")
-    | _ => (accepted, "FAIL:unparsable")
+      | "ok" :: _ => (st, "ok")
+      | "panic" :: _ => (st, specHbKey st true)
+      | _ => (st, "FAIL:unparsable")
+    | _ => (st, "FAIL:unparsable")
 
 end Driver.C34
 
